@@ -203,6 +203,21 @@ pub fn exec(mid: usize, op: &Op, lock: &BigLock) {
                 with_world(|w| w.set_root(mid, *dst, 0, 0));
                 return;
             }
+            // A non-null referent field of a live reference object must refer to a live object
+            // (checked before the value is handed to the weak-load barrier).
+            with_world(|w| {
+                let ok = crate::oracle::is_mapped(v) && v % 8 == 0 && {
+                    let h = obj::read_hdr(unsafe { Address::from_usize(v - obj::REF_OFFSET) });
+                    w.objs.contains_key(&h.id) && h.tomb == 0
+                };
+                if !ok {
+                    violation(
+                        "C06",
+                        "referent-garbage",
+                        format!("mutator {}: referent field of a live reference object holds {:#x}, which is not a live object", mid, v),
+                    );
+                }
+            });
             // weak-load barrier (SATB keeps the referent alive during concurrent marking)
             let m = mutator_ref(mid);
             m.barrier.load_weak_reference(obj::raw_to_ref(v).unwrap());
